@@ -109,5 +109,24 @@ func (r *NodeManagement) HandleMessage(message *api.Message) *model.ErrorType {
 		return model.NewErrorType(model.ErrorNumberTypeCommandNotSupported, fmt.Sprintf("nodemanagement.Handle: Cmd data not implemented: %s", message.Cmd.DataName()))
 	}
 
+	// an accepted reply has to trigger the response callbacks like on any other feature
+	if message.CmdClassifier == model.CmdClassifierTypeReply &&
+		message.RequestHeader != nil && message.RequestHeader.MsgCounterReference != nil {
+		var data any
+		if cmdData, err := message.Cmd.Data(); err == nil {
+			data = cmdData.Value
+		}
+
+		responseMsg := api.ResponseMessage{
+			MsgCounterReference: *message.RequestHeader.MsgCounterReference,
+			Data:                data,
+			FeatureLocal:        r,
+			FeatureRemote:       message.FeatureRemote,
+			EntityRemote:        message.EntityRemote,
+			DeviceRemote:        message.DeviceRemote,
+		}
+		r.processResponseMsgCallbacks(*message.RequestHeader.MsgCounterReference, responseMsg)
+	}
+
 	return nil
 }
